@@ -3,6 +3,7 @@ From Coq Require Import List String Ascii ZArith. Import ListNotations.
 From Coq Require Import List Bool Permutation.
 From SV Require Import Lib.Str Model.Types Model.Api Model.Back Model.Discover
      Proofs.SortProofs Proofs.OrderProofs Proofs.DiscoverProofs.
+From SV Require Import Model.Layout Model.View Model.Front Model.Run Proofs.RunProofs.
 
 (* the shortest public re-export does not depend on the iteration order of the candidate set when no two candidates
    of the same depth exist *)
@@ -28,8 +29,14 @@ Theorem C08_discovery_order_free : forall tr files files',
   Permutation (snd (discover tr files)) (snd (discover tr files')).
 Proof. exact discover_perm. Qed.
 
+(* WHOLE TOOL: the complete result of a run (API object, log, stub data, files, error) does not depend on the order in which
+   the file system enumerates the files - only on the set of enumerated paths *)
+Theorem C08_run_enumeration_order_free : forall v nc fs0 g g',
+  Permutation g g' -> run (with_glob v g) nc fs0 = run (with_glob v g') nc fs0.
+Proof. exact run_enumeration_order_free. Qed.
 Print Assumptions C08_shortest_reexport_order_free.
 Print Assumptions C08_shortest_reexport_tie_refuted.
 Print Assumptions C08_sorted_emission_order_free.
 Print Assumptions C08_union_members_order_free.
 Print Assumptions C08_discovery_order_free.
+Print Assumptions C08_run_enumeration_order_free.
